@@ -61,7 +61,7 @@ mutual
     | "G" :: tok :: to :: amt :: fl :: hasCb :: r => do
       let (cb, r) ← pList r
       let to ← to.toNat?
-      some (.native (.transfer (← tok.toNat?) to (← amt.toNat?) (to < 8)) (Flags.ofNat (← fl.toNat?))
+      some (.native (.transfer (← tok.toNat?) to (← amt.toNat?) (to < 4)) (Flags.ofNat (← fl.toNat?))
         (if hasCb == "1" then cb else .skip), r)
     | "F" :: v :: fl :: r => do
       some (.native (.setFee (← v.toNat?)) (Flags.ofNat (← fl.toNat?)) .skip, r)
